@@ -114,7 +114,6 @@ func (r *Reader) indexedMessageIterator(
 	for _, topic := range opts.Topics {
 		topicMap[topic] = true
 	}
-	r.l.emitChunks = true
 	return &indexedMessageIterator{
 		lexer:            r.l,
 		rs:               r.rs,
